@@ -8,7 +8,8 @@ if ! git apply "$P" 2>/dev/null; then
   if ! git apply --3way "$P" >/dev/null 2>&1; then echo "PATCH-DOES-NOT-APPLY $P"; git reset -q --hard HEAD; exit 3; fi
   git reset -q
 fi
-cd /verif && ./check "$ID" "$TIER" > /tmp/try_mutant.$$.out 2>&1; RC=$?
+mkdir -p /verif/sim/target/mutant-out
+cd /verif && CSIM_EVIDENCE_DIR=/verif/sim/target/mutant-out CSIM_REPLAY_DIR=/verif/sim/target/mutant-out ./check "$ID" "$TIER" > /tmp/try_mutant.$$.out 2>&1; RC=$?
 grep -E '^(VIOLATION|KNOWN-FINDING|HARNESS-ERROR|  signature|C[0-9]+ (quick|thorough):)' /tmp/try_mutant.$$.out | head -12
 rm -f /tmp/try_mutant.$$.out
 git -C /repo reset -q --hard HEAD
